@@ -33,9 +33,18 @@ def no_keepalive(url):
     return path.startswith(("/close", "/http10", "/eof"))
 
 
+def early(req):
+    """An answer sent as soon as the request HEAD has arrived (before its body)."""
+    if (req.target or b"").startswith(b"/early"):
+        tok = req.token or b"?"
+        return {"status": 413, "reason": b"Too Large", "headers": [(b"X-Tok", tok)], "body": b"body-of-" + tok, "framing": "cl"}
+    return None
+
+
 class PlanPeer(H11Peer):
     def __init__(self, rec=None, alpn=None):
         super().__init__(plan=plan, alpn=alpn)
+        self.early = early
 
 
 def world_h1(alpn="http/1.1"):
@@ -138,3 +147,6 @@ add(
 add(Scenario("h1-origins-port", dict(max_connections=3), [c("r1", "http://a.test:8001/1"), c("r2", "http://a.test:8002/2"), c("r3", "http://a.test:8001/3"), c("r4", "http://a.test/4"), c("r5", "http://a.test:80/5")]))
 add(Scenario("h1-origins-scheme", dict(max_connections=3), [c("r1", "http://a.test:8443/1"), c("r2", "https://a.test:8443/2"), c("r3", "http://a.test:8443/3"), c("r4", "wss://a.test:8443/4"), c("r5", "ws://a.test:8443/5")]))
 add(Scenario("h1-origins-host", dict(max_connections=2), [c("r1", "https://a.test/1"), c("r2", "https://b.test/2"), c("r3", "https://a.test:443/3"), c("r4", "https://A.TEST/4")]))
+add(Scenario("h1-max1-early", dict(max_connections=1), [c("r1", A + "/early1", method="POST", headers=[(b"Content-Length", b"40")], content=[b"0123456789"] * 4), c("r2", A + "/2"), c("r3", A + "/3")]))
+add(Scenario("h1-max1-mixed-ends", dict(max_connections=1), [c("r1", A + "/big1", consume=("chunks", 2)), c("r2", A + "/close2"), c("r3", A + "/3"), c("r4", A + "/http10")]))
+add(Scenario("h1-max2-AAAB-mixed", dict(max_connections=2), [c("r1", A + "/1"), c("r2", A + "/big2", consume="none"), c("r3", A + "/3"), c("r4", B + "/4")]))
